@@ -449,6 +449,19 @@ class Mailbox:
                     # there are no other commands running
                     #
                     return True
+
+                # A STORE that is still executing may be flagging messages
+                # `\Deleted`. By the time the EXPUNGE looks at the sequence
+                # there would be something to expunge after all, and it
+                # would remove messages underneath the running STORE (whose
+                # FETCH responses then carry sequence numbers from before
+                # the EXPUNGE.)
+                #
+                if any(
+                    x.command == IMAPCommand.STORE
+                    for x in self.executing_tasks
+                ):
+                    return True
                 return False
 
             case IMAPCommand.COPY:
